@@ -138,6 +138,31 @@ def main():
     # 5. pre-emption really happens
     s, err, _, _ = run({'policy': 'random', 'seed': 3, 'pauses': {'0': [1], '1': [2]}}, n=3)
     check(err is None and s.pause_count == 2, 'workers paused at seam events and resumed (%d pauses)' % s.pause_count)
+    # 6. a parent that BLOCKS on worker sentinels (multiprocessing.connection.wait) instead of polling exit codes
+    def sentinel_pool(n, target, base, n_proc):
+        import multiprocessing.connection
+        procs = []
+        for i in range(n):
+            p = SimProcess(target=target, args=(base, i))
+            p.start()
+            procs.append(p)
+        left = list(procs)
+        while left:
+            ready = multiprocessing.connection.wait([p.sentinel for p in left])
+            left = [p for p in left if p.sentinel not in ready]
+        return [p.exitcode for p in procs]
+    root = tempfile.mkdtemp(prefix='ctm-kst-')
+    os.makedirs(os.path.join(root, 'systmp'))
+    KERNEL.begin_scenario(root, root + '.trace', os.path.join(root, 'systmp'))
+    try:
+        with KERNEL.call({'policy': 'random', 'seed': 9, 'faults': {'1': {'point': 'mid', 'mode': 'kill', 'k': 1}}}) as s6:
+            codes = sentinel_pool(3, worker, os.path.join(root, 'out'), 99)
+    finally:
+        KERNEL.end_scenario()
+        shutil.rmtree(root, ignore_errors=True)
+        shutil.rmtree(root + '.trace', ignore_errors=True)
+    check(codes == [0, -9, 0] and len(s6.completion) == 3,
+          'a drain that blocks on sentinels terminates and then sees the real exit codes (%r)' % (codes,))
     print('kernel self-test: %d failures' % len(fails))
     return 1 if fails else 0
 
